@@ -233,7 +233,11 @@ func mergeConfigAppendArr(opts *options, to, from *Config) Error {
 }
 
 func mergeValues(opts *options, old, v value) (value, Error) {
-	if old == nil {
+	if isNil(old) {
+		// nothing there, or an explicit null: the new value as it is. (A
+		// null used to be turned into an empty object first, so that null
+		// merged over null became an object, and an object merged over a
+		// null lost the source it was loaded from.)
 		return v, nil
 	}
 
